@@ -1,8 +1,9 @@
 """C03 implementation runner: LAOStar on generated MDPs with a recording event listener.
 
-Per case: {"mdp": gen_mdp case, "h": [[num, den], ...] heuristic value per state id (exact doubles),
-           "seed": int, "rao": bool, "rno": bool}
-Result: convergence flag, initial value, every node of the explicit graph (value, optimal action,
+Per case: {"plans": [{"mdp": gen_mdp case}, ...] planned on IN TURN BY ONE LAOStar OBJECT,
+           "h": [[num, den], ...] heuristic value per state id (exact doubles),
+           "seed": int, "rao": bool, "rno": bool, "default_args": bool}
+Result per plan: convergence flag, initial value, every node of the explicit graph (value, optimal action,
 expanded), the solution graph's states, the returned policy queried at EVERY state id, and one record
 per main-loop iteration (expanded state, ancestor set Z, snapshot of all nodes after the revision)."""
 import os, sys
@@ -15,10 +16,39 @@ def snapshot(graph):
             for s, n in graph.states_to_nodes.items()]
 
 
+def plan_result(res, n, with_trace):
+    pol = []
+    for s in range(n):
+        try:
+            d = res.policy.action_dist(s)
+            pol.append([[a, fj(p)] for a, p in d.items()])
+        except BaseException as e:
+            if isinstance(e, (KeyboardInterrupt, SystemExit)):
+                raise
+            pol.append({"error": type(e).__name__ + ": " + str(e)[:200]})
+    out = {
+        "converged": bool(res.converged),
+        "iterations": int(res.iterations),
+        "initial_value": fj(res.initial_value),
+        "initial_states": list(res.explicit_graph.initial_states),
+        "value_map": [[s, fj(v)] for s, v in res.state_value_map.items()],
+        "solution_states": list(res.solution_graph.states_to_nodes.keys()),
+        "tips": list(res.solution_graph.nonterminal_tip_states),
+        "policy": pol,
+    }
+    if with_trace:
+        out["nodes"] = snapshot(res.explicit_graph)
+        out["trace"] = res.event_listener.steps
+    else:
+        out["n_nodes"] = len(res.explicit_graph.states_to_nodes)
+    return out
+
+
 def one(case, pl):
+    """ONE LAOStar object; it plans on case["plans"][0], then [1], ... (same state/action labels)"""
     from msdm.algorithms.laostar import LAOStar, LAOStarEventListener
     from fractions import Fraction
-    mdp = build_mdp(case["mdp"])
+    import traceback
     hv = [float(Fraction(int(x[0]), int(x[1]))) for x in case["h"]]
 
     class Rec(LAOStarEventListener):
@@ -30,32 +60,24 @@ def one(case, pl):
                                "Z": sorted(lv["ancestors"].keys()),
                                "nodes": snapshot(lv["explicit_graph"])})
 
-    lao = LAOStar(heuristic=lambda s: hv[s], seed=case["seed"],
-                  randomize_action_order=case["rao"], randomize_nextstate_order=case["rno"],
-                  event_listener_class=Rec)
-    res = lao.plan_on(mdp)
-    n = case["mdp"]["n"]
-    pol = []
-    for s in range(n):
+    if case.get("default_args"):
+        # default constructor arguments (iteration budget, flags, no listener); only heuristic and seed
+        lao = LAOStar(heuristic=lambda s: hv[s], seed=case["seed"])
+    else:
+        lao = LAOStar(heuristic=lambda s: hv[s], seed=case["seed"],
+                      randomize_action_order=case["rao"], randomize_nextstate_order=case["rno"],
+                      event_listener_class=Rec)
+    outs = []
+    for plan in case["plans"]:
         try:
-            d = res.policy.action_dist(s)
-            pol.append([[a, fj(p)] for a, p in d.items()])
+            mdp = build_mdp(plan["mdp"])
+            res = lao.plan_on(mdp)
+            outs.append(plan_result(res, plan["mdp"]["n"], not case.get("default_args")))
         except BaseException as e:
             if isinstance(e, (KeyboardInterrupt, SystemExit)):
                 raise
-            pol.append({"error": type(e).__name__ + ": " + str(e)[:200]})
-    return {
-        "converged": bool(res.converged),
-        "iterations": int(res.iterations),
-        "initial_value": fj(res.initial_value),
-        "initial_states": list(res.explicit_graph.initial_states),
-        "nodes": snapshot(res.explicit_graph),
-        "value_map": [[s, fj(v)] for s, v in res.state_value_map.items()],
-        "solution_states": list(res.solution_graph.states_to_nodes.keys()),
-        "tips": list(res.solution_graph.nonterminal_tip_states),
-        "policy": pol,
-        "trace": res.event_listener.steps,
-    }
+            outs.append({"error": type(e).__name__ + ": " + str(e)[:500], "trace_back": traceback.format_exc()[-1500:]})
+    return {"plans": outs}
 
 
 if __name__ == "__main__":
